@@ -124,6 +124,14 @@ theorem decodeUtf8E_errs (b : List Nat) : ErrIn (· = .UnicodeDecodeError) (deco
 section errclasses
 variable {P : PyErr → Prop}
 
+theorem modeFlag_errs (hV : P .ValueError) (i : Nat) (c : Char) (m : Nat) : ErrIn P (modeFlag i c m) := by
+  unfold modeFlag
+  split
+  · exact ErrIn.pure _
+  · split
+    · exact ErrIn.pure _
+    · exact ErrIn.throw hV
+
 theorem parseUnixMode_errs (hV : P .ValueError) (hK : P .KeyError) (hI : P .IndexError) (s : Str) :
     ErrIn P (parseUnixMode s) := by
   have eI : ∀ {α} {x : Except PyErr α}, ErrIn (· = .IndexError) x → ErrIn P x :=
@@ -133,7 +141,7 @@ theorem parseUnixMode_errs (hV : P .ValueError) (hK : P .KeyError) (hI : P .Inde
   unfold parseUnixMode
   repeat' first
     | exact ErrIn.ok _ | exact ErrIn.pure _ | exact ErrIn.throw hV
-    | exact eI (getIdx_errs _ _) | exact eK (parseRw_errs _)
+    | exact eI (getIdx_errs _ _) | exact eK (parseRw_errs _) | exact modeFlag_errs hV _ _ _
     | refine ErrIn.bind ?_ (fun _ => ?_)
     | split
     | simp only []
